@@ -1,6 +1,6 @@
 (* proofs for C08: the rebuild loop (K2) and the content-level filter *)
 From Coq Require Import List Arith ZArith Lia Bool.
-From BiomV Require Import Base.Tree Base.ListUtil Base.Matrix Model.Table Model.Filter.
+From BiomV Require Import Base.Tree Base.ListUtil Base.Matrix Model.Table Model.Orient Model.Filter Proofs.OrientProofs.
 Import ListNotations.
 
 Section K2.
@@ -258,13 +258,67 @@ Theorem filter_mask_other mask a t :
   ttype (filter_mask mask a t) = ttype t.
 Proof. destruct a; simpl; repeat split; reflexivity. Qed.
 
+(* ---- filter_table = filter_mask followed by the metadata normalisation of _cast_metadata ---- *)
+Lemma norm_md_ids a t : ids a (norm_md t) = ids a t.
+Proof. destruct a; reflexivity. Qed.
+
+Lemma norm_md_cell t o s : cell (norm_md t) o s = cell t o s.
+Proof. reflexivity. Qed.
+
+Lemma norm_md_mds a t : mds a (norm_md t) = ctor_md (mds a t).
+Proof. destruct a; reflexivity. Qed.
+
+Lemma wf_norm_md t : wf t -> wf (norm_md t).
+Proof.
+  intros (H1 & H2 & H3 & H4 & H5 & H6). unfold wf, norm_md, nobs, nsamp in *; simpl.
+  repeat split; try assumption; apply md_ok_ctor; assumption.
+Qed.
+
+Lemma md_view_norm a t x : md_view a (norm_md t) x = md_view a t x.
+Proof.
+  rewrite !md_view_entry. rewrite norm_md_ids, norm_md_mds.
+  destruct (pos x (ids a t)); [apply entry_view_ctor|reflexivity].
+Qed.
+
+Lemma md_view_of_md_of a t t' x : md_of a t' x = md_of a t x -> md_view a t' x = md_view a t x.
+Proof. unfold md_view. intros H. rewrite H. reflexivity. Qed.
+
+Lemma wf_filter_table mask a t : wf t -> wf (filter_table mask a t).
+Proof. intros W. apply wf_norm_md. apply wf_filter_mask. exact W. Qed.
+
+Lemma filter_table_ids mask a b t : ids b (filter_table mask a t) = ids b (filter_mask mask a t).
+Proof. apply norm_md_ids. Qed.
+
+Theorem filter_table_cell mask a t o s :
+  wf t -> In o (oids (filter_table mask a t)) -> In s (sids (filter_table mask a t)) ->
+  cell (filter_table mask a t) o s = cell t o s.
+Proof. intros W Ho Hs. unfold filter_table in *. rewrite norm_md_cell. apply filter_mask_cell; assumption. Qed.
+
+(* metadata travels with its id; None and the empty mapping are the same thing to a reader
+   (md_view), which is all that the normalisation "entries all empty -> None" can change *)
+Theorem filter_table_md mask a t x :
+  wf t -> In x (ids a (filter_table mask a t)) -> md_view a (filter_table mask a t) x = md_view a t x.
+Proof.
+  intros W Hx. unfold filter_table in *. rewrite md_view_norm. rewrite norm_md_ids in Hx.
+  apply md_view_of_md_of. apply filter_mask_md; assumption.
+Qed.
+
+Theorem filter_table_other mask a t :
+  ids (other a) (filter_table mask a t) = ids (other a) t /\
+  mds (other a) (filter_table mask a t) = ctor_md (mds (other a) t) /\
+  ttype (filter_table mask a t) = ttype t.
+Proof.
+  destruct (filter_mask_other mask a t) as (A & B & C). unfold filter_table.
+  rewrite norm_md_ids, norm_md_mds, A, B. repeat split. destruct a; exact C.
+Qed.
+
 Theorem filter_ids_kept keep invert a t t' :
   filter_ids keep invert a t = ROk t' ->
   ids a t' = filter (fun i => xorb (zmem i keep) invert) (ids a t) /\
   (forall x, In x keep -> In x (ids a t)).
 Proof.
   unfold filter_ids. destruct (forallb _ keep) eqn:F; [|discriminate]. intros H. inversion H; subst. split.
-  - destruct a; simpl; apply select_map_filter.
+  - rewrite filter_table_ids. destruct a; simpl; apply select_map_filter.
   - intros x Hx. rewrite forallb_forall in F. apply zmem_In. apply F. exact Hx.
 Qed.
 
@@ -291,7 +345,7 @@ Proof.
   intros W Hl. unfold filter_ids, accepted, filter_pred.
   assert (F : forallb (fun x => zmem x (ids a t)) (select verdicts (ids a t)) = true).
   { apply forallb_forall. intros x Hx. apply zmem_In. eapply select_In. exact Hx. }
-  rewrite F. f_equal. f_equal.
+  rewrite F. f_equal. unfold filter_table. f_equal. f_equal.
   assert (Hn : NoDup (ids a t)) by (destruct W as (_ & _ & A & B & _); destruct a; assumption).
   clear F W. revert verdicts Hl. induction (ids a t) as [|y l IH]; intros [|b v] Hl; simpl in *; try discriminate; [reflexivity|].
   inversion Hn as [|? ? Hy Hn']; subst. injection Hl as Hl. f_equal.
@@ -344,7 +398,7 @@ Theorem remove_empty_ids a t x :
   In x (ids a (remove_empty_axis a t)) <->
   exists i, i < length (ids a t) /\ nth i (ids a t) 0%Z = x /\ all_zero (vec a t i) = false.
 Proof.
-  unfold remove_empty_axis, nonempty_mask.
+  unfold remove_empty_axis, nonempty_mask. rewrite filter_table_ids.
   assert (E : ids a (filter_mask (map (fun i => negb (all_zero (vec a t i))) (seq 0 (length (ids a t)))) a t)
               = select (map (fun i => negb (all_zero (vec a t i))) (seq 0 (length (ids a t)))) (ids a t))
     by (destruct a; reflexivity).
@@ -369,29 +423,64 @@ Proof.
     + replace (n - s) with 0 by lia. simpl. rewrite IH. replace (n - S s) with 0 by lia. reflexivity.
 Qed.
 
+Lemma filter_table_md_any mask a b t x :
+  wf t -> In x (ids b (filter_table mask a t)) -> md_view b (filter_table mask a t) x = md_view b t x.
+Proof.
+  intros W Hx. destruct (filter_table_other mask a t) as (A & B & _).
+  assert (O : forall y, In y (ids (other a) (filter_table mask a t)) ->
+              md_view (other a) (filter_table mask a t) y = md_view (other a) t y).
+  { intros y _. rewrite !md_view_entry. rewrite A, B.
+    destruct (pos y (ids (other a) t)); [apply entry_view_ctor|reflexivity]. }
+  destruct a, b; simpl in *; try (apply filter_table_md; assumption); apply O; exact Hx.
+Qed.
+
+Lemma filter_table_sub mask a b t x : In x (ids b (filter_table mask a t)) -> In x (ids b t).
+Proof.
+  rewrite filter_table_ids. destruct a, b; simpl; intros H; try exact H; eapply select_In; exact H.
+Qed.
+
+Lemma ft_oids_obs mask t : oids (filter_table mask Obs t) = select mask (oids t). Proof. reflexivity. Qed.
+Lemma ft_sids_obs mask t : sids (filter_table mask Obs t) = sids t. Proof. reflexivity. Qed.
+Lemma ft_mat_obs mask t : mat (filter_table mask Obs t) = sel_rows mask (mat t). Proof. reflexivity. Qed.
+Lemma ft_oids_samp mask t : oids (filter_table mask Samp t) = oids t. Proof. reflexivity. Qed.
+Lemma ft_sids_samp mask t : sids (filter_table mask Samp t) = select mask (sids t). Proof. reflexivity. Qed.
+Lemma ft_mat_samp mask t : mat (filter_table mask Samp t) = sel_cols mask (mat t). Proof. reflexivity. Qed.
+Lemma ft_ttype mask a t : ttype (filter_table mask a t) = ttype t. Proof. destruct a; reflexivity. Qed.
+
 Theorem head_spec n m t t' :
   wf t -> head n m t = ROk t' ->
   (0 < n)%Z /\ (0 < m)%Z /\
   oids t' = firstn (Z.to_nat n) (oids t) /\ sids t' = firstn (Z.to_nat m) (sids t) /\
   mat t' = map (firstn (Z.to_nat m)) (firstn (Z.to_nat n) (mat t)) /\
-  omd t' = option_map (firstn (Z.to_nat n)) (omd t) /\ smd t' = option_map (firstn (Z.to_nat m)) (smd t) /\
-  ttype t' = ttype t.
+  (forall a x, In x (ids a t') -> md_view a t' x = md_view a t x) /\
+  ttype t' = ttype t /\ wf t'.
 Proof.
   intros W. unfold head. destruct ((n <=? 0)%Z || (m <=? 0)%Z) eqn:E; [discriminate|].
   apply orb_false_iff in E. destruct E as [E1 E2]. apply Z.leb_gt in E1, E2.
-  intros H. inversion H; subst; clear H. destruct W as (H1 & H2 & H3 & H4 & H5 & H6).
-  unfold nobs, nsamp, head_mask in *. simpl.
-  repeat split; try assumption.
-  - rewrite select_head_mask. f_equal. lia.
-  - rewrite select_head_mask. f_equal. lia.
-  - unfold sel_cols, sel_rows. rewrite <- H1. rewrite select_head_mask. rewrite Nat.sub_0_r.
+  intros H.
+  assert (Et : t' = filter_table (head_mask (Z.to_nat m) (nsamp t)) Samp
+                      (filter_table (head_mask (Z.to_nat n) (nobs t)) Obs t)) by congruence.
+  clear H. set (t1 := filter_table (head_mask (Z.to_nat n) (nobs t)) Obs t) in *.
+  assert (W1 : wf t1) by (apply wf_filter_table; exact W).
+  pose proof W as (H1 & H2 & H3 & H4 & H5 & H6).
+  assert (Eo : oids t1 = firstn (Z.to_nat n) (oids t)).
+  { unfold t1. rewrite ft_oids_obs. unfold head_mask, nobs. rewrite select_head_mask. f_equal. lia. }
+  assert (Es : sids t1 = sids t) by reflexivity.
+  assert (Em : mat t1 = firstn (Z.to_nat n) (mat t)).
+  { unfold t1. rewrite ft_mat_obs. unfold head_mask, nobs, sel_rows. unfold nobs in H1. rewrite <- H1.
+    rewrite select_head_mask. f_equal. lia. }
+  split; [lia|]. split; [lia|]. subst t'.
+  split; [rewrite ft_oids_samp; exact Eo|]. split.
+  { rewrite ft_sids_samp, Es. unfold head_mask, nsamp. rewrite select_head_mask. f_equal. lia. }
+  split.
+  { rewrite ft_mat_samp, Em. unfold head_mask, nsamp, sel_cols.
     apply map_ext_in. intros r Hr. apply In_firstn in Hr.
-    unfold rect in H2. rewrite Forall_forall in H2. rewrite <- (H2 r Hr).
-    rewrite select_head_mask. f_equal. lia.
-  - destruct (omd t) as [md|]; simpl; [|reflexivity]. simpl in H5. rewrite <- H5.
-    rewrite select_head_mask. f_equal. f_equal. lia.
-  - destruct (smd t) as [md|]; simpl; [|reflexivity]. simpl in H6. rewrite <- H6.
-    rewrite select_head_mask. f_equal. f_equal. lia.
+    unfold rect in H2. rewrite Forall_forall in H2. unfold nsamp in H2. rewrite <- (H2 r Hr).
+    rewrite select_head_mask. f_equal. lia. }
+  split.
+  { intros a x Hx. rewrite filter_table_md_any by assumption.
+    apply filter_table_md_any; [exact W|]. eapply filter_table_sub. exact Hx. }
+  split; [rewrite !ft_ttype; reflexivity|]. apply wf_filter_table. exact W1.
 Qed.
 
 Theorem head_refuses n m t : (n <= 0)%Z \/ (m <= 0)%Z -> exists c, head n m t = RErr c.
